@@ -339,7 +339,18 @@ func signature(r result) string {
 	if len(sig) > 300 {
 		sig = sig[:300]
 	}
-	return sig
+	// numbers (indices, lengths, addresses) vary between instances of one defect
+	var b strings.Builder
+	for i := 0; i < len(sig); i++ {
+		if sig[i] >= '0' && sig[i] <= '9' {
+			if i == 0 || sig[i-1] < '0' || sig[i-1] > '9' {
+				b.WriteByte('N')
+			}
+			continue
+		}
+		b.WriteByte(sig[i])
+	}
+	return b.String()
 }
 
 func runCrash(c *Ctx) {
@@ -496,7 +507,7 @@ func minimise(p *pool, f failure) string {
 	}
 	same := func(line string) bool {
 		r := p.run(line)
-		return r.failed() && r.class == f.res.class && strings.Split(r.detail, "\n")[0] == strings.Split(f.res.detail, "\n")[0]
+		return r.failed() && signature(r) == f.sig
 	}
 	budget := 400
 	ddmin := func(cur []byte, build func([]byte) string) []byte {
